@@ -138,6 +138,29 @@ def run(ck):
                          {"failing_input_found": True, "program": progs[cid], "quad_checks": list(pr)}, key=f"cancel:{pr[0]}{pr[1]}")
         elif verd.get(cid, "").startswith("ERROR"):
             raise BuildError("C09 real-prover second opinion failed: " + verd[cid])
+    # deviating prover on out-of-range values: the honest run leaves only the closing equality unsatisfied; re-wire that
+    # cell to a fresh witness (every row then holds, the copy constraint between the range chain and the closing
+    # equality does not) and hand it to the REAL prover with keys compiled from an in-range run of the same layout
+    rw = []
+    for name, m in meta.items():
+        if m[0] not in ("bits", "hook") or name not in impl: continue
+        kind, w, v = m
+        if not (0 < w <= 254) or v < (1 << w) or len(rw) >= (6 if quick else 60): continue
+        if quick and w % 5 != 3 and w not in (8, 64): continue
+        snap = Snapshot(impl[name])
+        r_ = composer.rewired_raw_instance(snap)
+        if r_ is None: continue
+        honest = ["w " + hx(v % (1 << w)), (f"rbits {w} $0" if kind == "bits" else f"rhook {w} $0")]
+        rw.append((name, honest, r_[0])); ck.count(("rewired", w, v), kind="deviating prover: closing equality re-wired")
+    if rw:
+        verd = composer.rewired_prover_verdicts(rw, "c09_rw")
+        for cid, honest, raw in rw:
+            if verd[cid] == "ACCEPTED":
+                kind, w, v = meta[cid]
+                ck.violation(f"range soundness: a prover that re-wires the closing equality of the {w}-bit check obtained an ACCEPTED proof for the value {v:#x} >= 2^{w}",
+                             {"failing_input_found": True, "compiled_from": honest, "prover_rows": raw[:2] + ["..."] + raw[-3:], "width": w, "value": hx(v)}, key="rewired-accepted")
+            elif verd[cid].startswith("ERROR"):
+                raise BuildError("C09 deviating-prover run failed: " + verd[cid])
     # layout-agnostic adversarial fill: on whatever rows the real code emitted, give every chain cell the
     # unmasked shift of the (out-of-range) value, so the excess lands in the first cell of the chain
     for name, m in list(meta.items()):
